@@ -13,7 +13,7 @@ seed = int(sys.argv[2]) if len(sys.argv) > 2 else 0
 fails = []
 evals = distinct = 0
 TERMS = ['A', 'B', 'C']
-NTS = ['start', 'x', 'y', 'z']
+NTS = ['start', 'x', 'y', 'z', 'w', 'v']       # all non-terminal names any family member may use (each grammar defines a subset)
 
 
 def note(key, inp, obs, req):
@@ -174,8 +174,8 @@ def templates():
     definition orders, mutually right-recursive nullable non-terminals (several builds each: set iteration order varies)"""
     out = []
     for p, q in ((2, 1), (1, 2), (None, 1), (2, None)):
-        out.append(({'start': [('x', 'A'), ('y', 'A'), ('B', 'A', 'B')], 'x': [('B',)], 'y': [('B',)], 'z': [('A',)]}, {'start': None, 'x': p, 'y': q, 'z': None}, NTS))
-        out.append(({'start': [('x', 'A'), ('y', 'A', 'B')], 'x': [('B',)], 'y': [('B',)], 'z': [('A',)]}, {'start': None, 'x': p, 'y': q, 'z': None}, NTS))
+        out.append(({'start': [('x', 'A'), ('y', 'A'), ('B', 'A', 'B')], 'x': [('B',)], 'y': [('B',)], 'z': [('A',)]}, {'start': None, 'x': p, 'y': q, 'z': None}, None))
+        out.append(({'start': [('x', 'A'), ('y', 'A', 'B')], 'x': [('B',)], 'y': [('B',)], 'z': [('A',)]}, {'start': None, 'x': p, 'y': q, 'z': None}, None))
     chain = {'start': [('B', 'x', 'A')], 'x': [('y',)], 'y': [('z',)], 'z': [()]}
     chain2 = {'start': [('x', 'A'), ('B', 'x', 'C')], 'x': [('y',), ('C',)], 'y': [('z',), ('y', 'B')], 'z': [(), ('A', 'A')]}
     for g in (chain, chain2):
@@ -186,16 +186,25 @@ def templates():
           {'start': [('A', 'x', 'A'), ('B', 'y', 'B'), ('C', 'z', 'C')], 'x': [('B', 'y'), ()], 'y': [('C', 'z'), ('A', 'x'), ()], 'z': [('A', 'x'), ('B', 'y'), ()]}]
     for g in rr:
         for rep in range(6):
-            out.append((g, {n: None for n in NTS}, NTS))
+            out.append((g, {n: None for n in NTS}, None))
+    # a reduction whose lookahead is only reachable through a nullable unit chain of length three (reads / includes relations),
+    # the chain written top-down, bottom-up and mixed
+    deep = [{'w': [('B',)], 'start': [('w', 'x', 'A')], 'x': [('y',)], 'y': [('z',)], 'z': [()]},
+            {'w': [('B',)], 'v': [('w', 'x')], 'start': [('v', 'A')], 'x': [('y',)], 'y': [('z',)], 'z': [()]},
+            {'w': [('B',), ('w', 'B')], 'start': [('w', 'x', 'A'), ('A', 'x', 'w')], 'x': [('y',), ('A', 'A')], 'y': [('z',)], 'z': [()]}]
+    for g in deep:
+        names = list(g)
+        for order in (names, names[::-1], sorted(names), names[1:] + names[:1], names[2:] + names[:2]):
+            out.append((g, {n: None for n in NTS}, order))
     return out
 
 
 def to_lark(g, prio, order=None):
     lines = []
-    for n in (order or NTS):
+    for n in (order or [m for m in NTS if m in g]):
         alts = [' '.join(r) if r else '' for r in g[n]]
         lines.append('%s%s: %s' % (n, '.%d' % prio[n] if prio[n] else '', ' | '.join(alts)))
-    return '\n'.join(lines) + '\nA: "a"\nB: "b"\n'
+    return '\n'.join(lines) + '\nA: "a"\nB: "b"\nC: "c"\n'
 
 
 def cyclic(rules):
@@ -223,10 +232,10 @@ signal.signal(signal.SIGALRM, _alarm)
 COUNT = 200 if tier == 'quick' else 1200
 MAXLEN = 4 if tier == 'quick' else 5
 rnd = random.Random(seed)
-FAMILY = [(g, prio, NTS) for g, prio in gen_grammars(rnd, COUNT)] + templates()
+FAMILY = [(g, prio, None) for g, prio in gen_grammars(rnd, COUNT)] + templates()
 for g, prio, order in FAMILY:
     text = to_lark(g, prio, order)
-    rules = [('$root', ('start',), None)] + [(n, tuple(r), prio[n]) for n in NTS for r in g[n]]
+    rules = [('$root', ('start',), None)] + [(n, tuple(r), prio.get(n)) for n in NTS if n in g for r in g[n]]
     # lark drops duplicate/unreachable rules silently? keep reference on reachable rules only
     reach, todo = {'start'}, ['start']
     while todo:
@@ -321,6 +330,43 @@ for g, prio, order in FAMILY:
                 note('accepts', {'grammar': text, 'input': s, 'after_tokens': j}, sorted(acc_log[j]), sorted(exp_log[j])); stop = True; break
         if stop: break
     if len([f for f in fails if f['key'] != 'reduce-cycle-hang']) >= 3: break
+
+# ---------------------------------------------------------------- the closure operator of the lookahead computation, on its own
+# digraph(X, R, G) must return F(x) = union of G(y) over all y reachable from x (reflexive-transitive closure of R): exhaustive over
+# every relation on up to 4 nodes (quick: 3 nodes + a sample of 4), successor lists in ascending and descending order
+try:
+    from lark.parsers.lalr_analysis import digraph
+except Exception:
+    digraph = None
+if digraph is not None:
+    def closure_ok(n, bits, rev):
+        X = list(range(n))
+        R = {x: [y for y in (reversed(X) if rev else X) if bits >> (x * n + y) & 1] for x in X}
+        G = {x: {x} for x in X}
+        try:
+            F = digraph(X, R, G)
+        except Exception as e:
+            return 'raised %s' % type(e).__name__, None
+        exp = {}
+        for x in X:
+            seen, todo = {x}, [x]
+            while todo:
+                for y in R[todo.pop()]:
+                    if y not in seen: seen.add(y); todo.append(y)
+            exp[x] = seen
+        got = {x: set(F[x]) for x in X}
+        return (None, None) if got == exp else ({str(k): sorted(v) for k, v in got.items()}, {str(k): sorted(v) for k, v in exp.items()})
+    space = [(n, b) for n in (1, 2, 3) for b in range(2 ** (n * n))]
+    space += [(4, b) for b in (range(2 ** 16) if tier != 'quick' else rnd.sample(range(2 ** 16), 6000))]
+    for n, b in space:
+        for rev in (False, True):
+            evals += 1
+            got, exp = closure_ok(n, b, rev)
+            if got is not None:
+                note('digraph-closure', {'nodes': n, 'relation': {str(x): [y for y in range(n) if b >> (x * n + y) & 1] for x in range(n)}, 'successors_descending': rev},
+                     got, exp if exp is not None else 'no exception')
+                break
+        if any(f['key'] == 'digraph-closure' for f in fails): break
 
 # the recorded finding: priority-resolved reduce/reduce on a cyclic grammar -> the reduce loop never ends
 g11 = 'start: a\na: b | "x"\nb.2: a\n'
